@@ -844,8 +844,9 @@ func childNeg(in []byte) []byte {
 		case "FindStreamTokens":
 			st, cs := vgirpc.FindStreamTokens(body)
 			out.OK = st != nil || cs != nil
-			_ = vgirpc.FindStateToken(body)
-			_ = vgirpc.FindCallStateToken(body)
+			// (FindStateToken/FindCallStateToken are one-line wrappers, compared with
+			// FindStreamTokens in the positive arm; calling them here would decode the
+			// hostile body three times in one process.)
 		case "FindProtocolVersion":
 			out.OK = vgirpc.FindProtocolVersion(body) != ""
 		case "ReadUnaryResult":
@@ -970,6 +971,7 @@ func hostileFrom(rng *rand.Rand, base []byte, name string) hostileBody {
 func armNegative(r *mon.Run, nBodies, shards int) {
 	type shardRes struct {
 		bodies []hostileBody
+		idx    [][2]int // (body, op) of each child case
 		outs   []mon.Outcome
 		err    error
 	}
@@ -987,17 +989,27 @@ func armNegative(r *mon.Run, nBodies, shards int) {
 				res[s].bodies = append(res[s].bodies, hostileFrom(rng, corpus[k], names[k]))
 			}
 			// Op-major order: the four helpers see the same body in four different
-			// child processes. Bodies that declare a mid-range length get a child
-			// of their own (see wb.BigAllocThreshold).
+			// child processes. A body that declares a mid-range length (see
+			// wb.BigAllocThreshold) is given to ONE helper, in rotation: all four
+			// reach the same arrow-go reader, and each such case is expensive here.
+			nb := len(res[s].bodies)
+			decl := make([]int64, nb)
+			for i, hb := range res[s].bodies {
+				decl[i] = wb.Declared(hb.Body)
+			}
 			var inputs [][]byte
-			var big []bool
+			var declared []int64
 			for op := range negOps {
-				for _, hb := range res[s].bodies {
+				for i, hb := range res[s].bodies {
+					if decl[i] >= wb.BigAllocThreshold && i%len(negOps) != op {
+						continue
+					}
 					inputs = append(inputs, append([]byte{byte(op)}, hb.Body...))
-					big = append(big, wb.IsBig(hb.Body))
+					declared = append(declared, decl[i])
+					res[s].idx = append(res[s].idx, [2]int{i, op})
 				}
 			}
-			res[s].outs, res[s].err = wb.RunPartitioned("c01neg", inputs, big, 500, 5*time.Minute)
+			res[s].outs, res[s].err = wb.RunPartitioned("c01neg", inputs, declared, 500, 5*time.Minute)
 		}(s)
 	}
 	wg.Wait()
@@ -1006,9 +1018,8 @@ func armNegative(r *mon.Run, nBodies, shards int) {
 			r.Fatal("isolated negative arm: %v", res[s].err)
 		}
 		for i, o := range res[s].outs {
-			nb := len(res[s].bodies)
-			hb := res[s].bodies[i%nb]
-			op := negOps[i/nb]
+			hb := res[s].bodies[res[s].idx[i][0]]
+			op := negOps[res[s].idx[i][1]]
 			rep := wb.Walk(hb.Body)
 			r.Class("neg-frame-" + rep.Class)
 			r.Class("neg-kind-" + hb.How.Kind)
@@ -1042,7 +1053,7 @@ func armNegative(r *mon.Run, nBodies, shards int) {
 			if no.Micros > 200000 {
 				r.Count("neg.slow_cases_over_200ms."+rep.Class, 1)
 				if os.Getenv("VERIF_DEBUG_SLOW") != "" {
-					fmt.Printf("SLOW %s us=%d class=%s declared=%d big=%v kind=%s err=%s b64=%s\n", op, no.Micros, rep.Class, rep.Declared, wb.IsBig(hb.Body), hb.How.Kind, trunc(no.Err), gen.B64(hb.Body[:min(len(hb.Body), 48)]))
+					fmt.Printf("SLOW %s us=%d class=%s declared=%d big=%v kind=%s err=%s b64=%s\n", op, no.Micros, rep.Class, rep.Declared, wb.Declared(hb.Body) >= wb.BigAllocThreshold, hb.How.Kind, trunc(no.Err), gen.B64(hb.Body[:min(len(hb.Body), 48)]))
 				}
 			}
 			switch {
